@@ -219,6 +219,21 @@ func GateOf(b *Bool) (string, bool) {
 	return ValKey(&u), b.Neg
 }
 
+// PathGuards returns the undecided branch conditions (key -> outcome) in force at
+// the current point over the whole call stack: those of the innermost activation and
+// those that held at each enclosing call site.
+func (ip *Interp) PathGuards(st *State) map[string]bool {
+	g := ip.Guards(st)
+	if len(ip.acts) > 0 {
+		for k, v := range ip.acts[len(ip.acts)-1].outer {
+			if _, ok := g[k]; !ok {
+				g[k] = v
+			}
+		}
+	}
+	return g
+}
+
 // GuardListOf returns the guards recorded with an event.
 func (ip *Interp) GuardListOf(ev Event) []GuardInfo { return ev.GuardL }
 
@@ -276,6 +291,8 @@ type activation struct {
 	env map[ssa.Value]Val
 	// loads remembers, for values produced by a load, the heap cell they came from
 	loads map[ssa.Value]loadOrigin
+	// outer: branch outcomes in force at the call site (over all enclosing activations)
+	outer map[string]bool
 }
 
 type loadOrigin struct {
@@ -438,6 +455,8 @@ func (ip *Interp) Call(fn *ssa.Function, args []Val, bind []Val, st *State) (res
 	ip.stack = append(ip.stack, fn)
 	savedPos := ip.curPos
 	act := &activation{fn: fn, env: map[ssa.Value]Val{}, loads: map[ssa.Value]loadOrigin{}}
+	// the branch outcomes in force at the call site stay in force in the callee
+	act.outer = ip.PathGuards(st)
 	ip.acts = append(ip.acts, act)
 	defer func() {
 		ip.stack = ip.stack[:len(ip.stack)-1]
@@ -647,6 +666,8 @@ func (ip *Interp) callPath(fn *ssa.Function, args []Val, bind []Val, st *State) 
 	ip.stack = append(ip.stack, fn)
 	savedPos := ip.curPos
 	act := &activation{fn: fn, env: map[ssa.Value]Val{}, loads: map[ssa.Value]loadOrigin{}}
+	// the branch outcomes in force at the call site stay in force in the callee
+	act.outer = ip.PathGuards(st)
 	ip.acts = append(ip.acts, act)
 	defer func() {
 		ip.stack = ip.stack[:len(ip.stack)-1]
